@@ -816,6 +816,57 @@ pub fn run(tier: Tier, totals: &mut Totals) {
 
 /// Sizes far beyond the search bound: collections with hundreds of items and hundreds of live handles.
 fn scale(tier: Tier, totals: &mut Totals) {
+    // a recursive release goes down through every kind of collection: three (and four) levels, each an
+    // array, a map or a set holding the handle of the next, released from the top - nothing is left
+    {
+        let kinds = ["array", "map", "set"];
+        let make = |kind: &str, var: &str, child: Option<&str>| -> String {
+            match (kind, child) {
+                ("array", None) => format!("{} = array leaf\n", var),
+                ("map", None) => format!("{} = map\nmap_put ${{{}}} k leaf\n", var, var),
+                (_, None) => format!("{} = set_new leaf\n", var),
+                ("array", Some(c)) => format!("{} = array first ${{{}}} last\n", var, c),
+                ("map", Some(c)) => format!("{} = map\nmap_put ${{{}}} a first\nmap_put ${{{}}} k ${{{}}}\n", var, var, var, c),
+                (_, Some(c)) => format!("{} = set_new first ${{{}}} last\n", var, c),
+            }
+        };
+        let probe = |kind: &str, var: &str, out: &str| -> String {
+            match kind {
+                "array" => format!("{} = is_array ${{{}}}\n", out, var),
+                "map" => format!("{} = is_map ${{{}}}\n", out, var),
+                _ => format!("{} = is_set ${{{}}}\n", out, var),
+            }
+        };
+        for depth in [3usize, 4] {
+            let mut combos: Vec<Vec<&str>> = vec![vec![]];
+            for _ in 0..depth {
+                combos = combos.into_iter().flat_map(|c| kinds.iter().map(move |k| { let mut n = c.clone(); n.push(*k); n })).collect();
+            }
+            for combo in combos {
+                // combo[0] is the top, the last one the leaf collection
+                let mut text = String::new();
+                for level in (0..depth).rev() {
+                    let child = if level + 1 < depth { Some(format!("c{}", level + 1)) } else { None };
+                    text.push_str(&make(combo[level], &format!("c{}", level), child.as_deref()));
+                }
+                text.push_str("other = array untouched\n");
+                for level in 0..depth {
+                    text.push_str(&probe(combo[level], &format!("c{}", level), &format!("before{}", level)));
+                }
+                text.push_str("r = release -r ${c0}\n");
+                let mut expect: Vec<(String, Option<String>)> = vec![("r".into(), Some("true".into()))];
+                for level in 0..depth {
+                    text.push_str(&probe(combo[level], &format!("c{}", level), &format!("after{}", level)));
+                    expect.push((format!("before{}", level), Some("true".into())));
+                    expect.push((format!("after{}", level), Some("false".into())));
+                }
+                text.push_str("still = is_array ${other}\nrelease ${other}\n");
+                expect.push(("still".into(), Some("true".into())));
+                let exp: Vec<(&str, Option<String>)> = expect.iter().map(|(k, v)| (k.as_str(), v.clone())).collect();
+                crate::util::scale_case_totals(totals, &format!("recursive-release levels {:?}", combo), &text, &exp);
+            }
+        }
+    }
     // a command that takes any number of collections, called with 2, 3, 1, 4, 2 of them in one run (in
     // every rotation): each call sees exactly its own arguments
     {
@@ -1022,7 +1073,7 @@ pub fn replay(case: &Value) -> Result<String, String> {
     Ok(out.join("\n"))
 }
 
-pub const RULE: &str = "explicit-state breadth-first search from the empty handle table: creators (array, range, map, set_new, set_from_array, array_concat, set_to_array, map_keys), every mutator and query of the statement, is_array/is_map/is_set, release and release -r, each given every live handle, a released handle, an unknown text and a text that looks like a handle, indexes {0,1,2,-1,x}, values {a, empty, 'b c', 0 (, false, look-alike handle, e-acute)} and the handle of the collection itself or of the other live collection as array item, set member, map key and map value (release -r follows such references); growing operations are disabled at 2 live handles / length 2 so the space is finite and searched to a fixpoint. Each transition runs the real command, compares its output with the model (vector / map / set per live handle) and then the complete handle table (every collection equal to the model, no other entry) and the variable map (must stay empty). States are de-duplicated on the multiset of collection contents plus the implementation's remaining state. evaluations = transitions; distinct_nontrivial = distinct states. Scale cases (scripts, results computed in Rust): an array / a map / a set with 10/70/300 (thorough 1000, 3000) items built, read at both ends, joined, searched, emptied; as many live handles held by one outer array and taken by a recursive release. Index texts: 23 texts (signs, blanks, fractions, other digits, beyond the machine word) x arrays of 0/1/3 items through array_get / array_set / array_remove against usize parsing. Joins of non-ASCII items and separators. The quick sizes include 4000 items (thorough 20000), with set_from_array and array_concat of the big array. Variadic calls: array_concat with 2, 3, 1, 4, 2 collections in one run, in every rotation, then a failing call and set_from_array. Fixed cases run at the threshold sizes (p-1, p, p+1 around powers of two and ten), each script in a child process";
+pub const RULE: &str = "explicit-state breadth-first search from the empty handle table: creators (array, range, map, set_new, set_from_array, array_concat, set_to_array, map_keys), every mutator and query of the statement, is_array/is_map/is_set, release and release -r, each given every live handle, a released handle, an unknown text and a text that looks like a handle, indexes {0,1,2,-1,x}, values {a, empty, 'b c', 0 (, false, look-alike handle, e-acute)} and the handle of the collection itself or of the other live collection as array item, set member, map key and map value (release -r follows such references); growing operations are disabled at 2 live handles / length 2 so the space is finite and searched to a fixpoint. Each transition runs the real command, compares its output with the model (vector / map / set per live handle) and then the complete handle table (every collection equal to the model, no other entry) and the variable map (must stay empty). States are de-duplicated on the multiset of collection contents plus the implementation's remaining state. evaluations = transitions; distinct_nontrivial = distinct states. Scale cases (scripts, results computed in Rust): an array / a map / a set with 10/70/300 (thorough 1000, 3000) items built, read at both ends, joined, searched, emptied; as many live handles held by one outer array and taken by a recursive release. Index texts: 23 texts (signs, blanks, fractions, other digits, beyond the machine word) x arrays of 0/1/3 items through array_get / array_set / array_remove against usize parsing. Joins of non-ASCII items and separators. The quick sizes include 4000 items (thorough 20000), with set_from_array and array_concat of the big array. Variadic calls: array_concat with 2, 3, 1, 4, 2 collections in one run, in every rotation, then a failing call and set_from_array. Fixed cases run at the threshold sizes (p-1, p, p+1 around powers of two and ten), each script in a child process. Recursive release: every combination of array / map / set over three and four levels, each holding the handle of the next, released from the top with -r: no level is left, a bystander is";
 pub const ASSUMPTIONS: &[&str] = &["listings whose order the documentation does not fix (map_keys, set_to_array) are compared as multisets and then sorted in place by the harness", "random handle names are opaque; a collision of two 20-character random names is outside the model", "operations are run through run_instruction with already-bound arguments"];
 pub const EXHAUSTIVE: bool = true;
 pub const WALL_CAP_S: (u64, u64) = (50, 1500);
